@@ -156,12 +156,14 @@ def random_graph(rng):
     return [[(2 if rng.random() < nl else 1) if rng.random() < dens else 0 for _ in range(V)] for _ in range(V)]
 
 
-def graph_part(ctx, n_graphs):
+def graph_part(ctx, n_graphs, only=None):
     rng = ctx.rng
     graphs = [[[2]], [[1]], [[0, 2], [1, 0]], [[0, 1], [1, 0]], [[0, 2, 0], [0, 0, 1], [0, 0, 0]],
               [[0, 1, 0], [0, 0, 1], [2, 0, 0]], [[0, 1, 0, 0], [1, 0, 0, 0], [0, 0, 0, 2], [0, 0, 0, 0]]]
     while len(graphs) < n_graphs:
         graphs.append(random_graph(rng))
+    if only is not None:
+        graphs = [only, only]
     tasks = [{"kind": "graph", "adj": g, "weak_after": i % 2 == 1, "timeout": 30} for i, g in enumerate(graphs)]
     results = lib.run_tasks(tasks, timeout=30, jobs=4)
     body = HEADER
@@ -283,6 +285,16 @@ def run(ctx):
     n_out = ctx.pick(14, 120)
     N = 5
     cases = [(p, o, s, "in") for p, o, s in classgen.witnesses()]
+    rd = lib.replay_data(ctx)
+    if rd is not None:
+        if "adj" in rd:
+            graph_part(ctx, 0, only=rd["adj"])
+            return
+        if "prog_json" not in rd:
+            ctx.violation("replay-not-replayable", {"file": ctx.replay}, "this replay file names a broken proof / correspondence, not an input", no_input=True)
+            return
+        cases = [(P.from_json(rd["prog_json"]), rd.get("options") or {}, rd.get("shape", "replay"), "in")]
+        n_in = n_out = 0
     for i in range(n_in):
         p, o, s = classgen.IN_SHAPES[i % len(classgen.IN_SHAPES)](rng)
         cases.append((p, o, s, "in"))
@@ -352,7 +364,7 @@ def run(ctx):
         st["in_class"] += bool(inclass)
         ms, gts = goals[i]
         ctx.count({"t": text, "o": opts}, nontrivial=shape not in ("generic",) or len(ms) > 2)
-        replay = {"program_text": text, "options": opts, "shape": shape, "in_class": inclass,
+        replay = {"program_text": text, "prog_json": P.to_json(p), "options": opts, "shape": shape, "in_class": inclass,
                   "in_class_parts": dict(zip(PARTS, cl["parts"])) if cl else None}
 
         # -- whole-program outcomes
@@ -453,7 +465,8 @@ def run(ctx):
 
     timing["analysis"] = round(time.time() - t_, 1)
     t_ = time.time()
-    graph_part(ctx, ctx.pick(60, 600))
+    if rd is None:
+        graph_part(ctx, ctx.pick(60, 600))
     timing["graphs"] = round(time.time() - t_, 1)
     t_ = time.time()
     worklist_part(ctx, wl_cases)
